@@ -185,9 +185,14 @@ def verify(job, workdir, backend_flags=()):
                 res.traces[ob['name']] = r['trace']
         elif ob['status'] != 'SUCCESS':
             res.reason = 'obligation %s has status %s' % (ob['name'], ob['status'])
+    if res.failed:
+        # obligations downstream of a failing one are reported UNKNOWN by cbmc; the failure decides
+        res.status = 'failed'
+        res.reason = ''
+        return res
     if res.reason:
         return res
-    if res.failed:
+    if False:
         res.status = 'failed'
     elif verdict == 'success':
         res.status = 'ok'
